@@ -57,8 +57,14 @@ class FileSystemArtifactStore(SerializedArtifactStore):
 
         open_kwargs = dict(mode='wb') if fmt == DataFormat.PICKLE else dict(mode='w', encoding='utf-8')
 
-        with Path(self._ensure_dir() / f'{node_id}.{fmt.value}').open(**open_kwargs) as file:  # noqa: ASYNC101
-            serializer_factory.from_data_format(fmt).dump(data, file)
+        path = Path(self._ensure_dir() / f'{node_id}.{fmt.value}')
+
+        try:
+            with path.open(**open_kwargs) as file:  # noqa: ASYNC101
+                serializer_factory.from_data_format(fmt).dump(data, file)
+        except BaseException:
+            path.unlink(missing_ok=True)
+            raise
 
     @dont_use_for_prod
     async def load(self, node_id: NodeId) -> NodeResultT:
